@@ -5,7 +5,7 @@ from common import Run
 N_QUICK = 24
 N_THOROUGH = 200
 EXTRAS = {}
-FORCES = [dict(n_live=8, n_update=1, n_batch=3, n_networks=0, family='twomode', n_dim=2, seed=22, discard_at_end=False, n_shell=5, n_eff=60, blob='two', toggles=0, resumes=2, pool_s=None, pool_l=None, vectorized=False, prior_object=False, prior_inplace=False, periodic=None, n_points_min=None, split_threshold=100, n_like_new_bound=None, direct_every=False), dict(n_live=8, n_update=1, n_batch=3, n_networks=0, family='funnel', n_dim=2, seed=3, discard_at_end=True, n_shell=5, n_eff=60, blob='none', toggles=0, resumes=1, pool_s=None, pool_l=None, vectorized=False, prior_object=False, prior_inplace=False, periodic=None, n_points_min=None, split_threshold=100, n_like_new_bound=None, direct_every=False), dict(n_live=10, n_update=1, n_batch=2, n_networks=0, family='gauss', n_dim=2, discard_at_end=True, n_shell=5, n_eff=150, blob='float', toggles=1, resumes=1, pool_s=None, pool_l=None, vectorized=False, prior_object=False, periodic=None, direct_every=False), dict(n_live=10, n_update=1, n_batch=2, n_networks=0, family='twomode', n_dim=2, discard_at_end=False, n_shell=5, n_eff=150, blob='two', toggles=2, resumes=0, pool_s=None, pool_l=None, vectorized=False, prior_object=False, periodic=None, direct_every=False)] + [dict(blob=b, vectorized=v, prior_object=po, prior_inplace=pi, n_batch=nb, pool_l=pl, n_live=40, n_networks=0, n_eff=150, family='gauss', n_dim=2)
+FORCES = [dict(n_live=8, n_update=1, n_batch=3, n_networks=0, family='twomode', n_dim=2, seed=22, discard_at_end=False, n_shell=5, n_eff=60, blob='two', toggles=0, resumes=2, pool_s=None, pool_l=None, vectorized=False, prior_object=False, prior_inplace=False, periodic=None, n_points_min=None, split_threshold=100, n_like_new_bound=None, direct_every=False), dict(n_live=8, n_update=1, n_batch=3, n_networks=0, family='funnel', n_dim=2, seed=3, discard_at_end=True, n_shell=5, n_eff=60, blob='none', toggles=0, resumes=1, pool_s=None, pool_l=None, vectorized=False, prior_object=False, prior_inplace=False, periodic=None, n_points_min=None, split_threshold=100, n_like_new_bound=None, direct_every=False), dict(n_live=10, n_update=1, n_batch=2, n_networks=0, family='gauss', n_dim=2, discard_at_end=True, n_shell=5, n_eff=150, blob='float', toggles=1, resumes=1, pool_s=None, pool_l=None, vectorized=False, prior_object=False, periodic=None, direct_every=False), dict(n_live=10, n_update=1, n_batch=2, n_networks=0, family='twomode', n_dim=2, discard_at_end=False, n_shell=5, n_eff=150, blob='two', toggles=2, resumes=0, pool_s=None, pool_l=None, vectorized=False, prior_object=False, periodic=None, direct_every=False)] + [dict(blob=b, vectorized=v, prior_object=po, prior_inplace=pi, early_posterior=pi, n_batch=nb, pool_l=pl, n_live=40, n_networks=0, n_eff=150, family='gauss', n_dim=2)
           for (b, v, po, pi, nb, pl) in [('float', False, False, True, 1, None), ('int', True, False, False, 2, None), ('vec1', False, True, False, 7, None),
                                          ('vec3', True, True, False, 7, None), ('two', False, False, True, 20, 2), ('none', False, False, False, 1, None),
                                          ('float', True, False, True, 7, None), ('two', True, True, False, 2, None), ('vec3', False, False, False, 1, 2),
